@@ -212,6 +212,106 @@ func (e *Engine) structural(spec string) (bool, string) {
 			return false, "no initialiser entries found for " + parts[2]
 		}
 		return true, fmt.Sprintf("%d initialiser entries, all true", n)
+	case "global-maps-inverse":
+		// global-maps-inverse|<pkg name>|<global A>|<global B>: both string->string maps are written only by the
+		// package initialiser, with constant keys and values, and B is exactly the inverse relation of A
+		// (A[k] == v iff B[v] == k), so both are injective and map onto each other's key sets.
+		if len(parts) != 4 && len(parts) != 5 {
+			return false, "bad spec"
+		}
+		tables := map[string]map[string]string{parts[2]: {}, parts[3]: {}}
+		var bad []string
+		for key, fn := range e.funcs {
+			pk := fnPackage(fn)
+			if pk == nil || pkgKey(pk) != parts[1] || fn.Blocks == nil {
+				continue
+			}
+			isInit := fn.Name() == "init" || strings.HasPrefix(fn.Name(), "init#")
+			globalOf := func(v ssa.Value) string {
+				if u, ok := v.(*ssa.UnOp); ok {
+					if g, ok := u.X.(*ssa.Global); ok && tables[g.Name()] != nil {
+						return g.Name()
+					}
+				}
+				if mm, ok := v.(*ssa.MakeMap); ok && isInit && mm.Referrers() != nil {
+					for _, r := range *mm.Referrers() {
+						if st, ok := r.(*ssa.Store); ok {
+							if g, ok := st.Addr.(*ssa.Global); ok && tables[g.Name()] != nil {
+								return g.Name()
+							}
+						}
+					}
+				}
+				return ""
+			}
+			for _, b := range fn.Blocks {
+				for _, ins := range b.Instrs {
+					switch x := ins.(type) {
+					case *ssa.Store:
+						if g, ok := x.Addr.(*ssa.Global); ok && tables[g.Name()] != nil && !isInit {
+							bad = append(bad, key+" reassigns "+g.Name())
+						}
+					case *ssa.MapUpdate:
+						t := globalOf(x.Map)
+						if t == "" {
+							continue
+						}
+						kc, ok1 := x.Key.(*ssa.Const)
+						vc, ok2 := x.Value.(*ssa.Const)
+						if !isInit {
+							bad = append(bad, key+" writes "+t)
+						} else if !ok1 || !ok2 || kc.Value == nil || vc.Value == nil || kc.Value.Kind() != constant.String || vc.Value.Kind() != constant.String {
+							bad = append(bad, "init stores a non-constant entry in "+t)
+						} else {
+							k, v := constant.StringVal(kc.Value), constant.StringVal(vc.Value)
+							if _, dup := tables[t][k]; dup {
+								bad = append(bad, fmt.Sprintf("%s has two entries for %q", t, k))
+							}
+							tables[t][k] = v
+						}
+					case *ssa.Call:
+						if bi, ok := x.Call.Value.(*ssa.Builtin); ok && (bi.Name() == "delete" || bi.Name() == "clear") && len(x.Call.Args) > 0 && globalOf(x.Call.Args[0]) != "" {
+							bad = append(bad, key+" deletes from "+globalOf(x.Call.Args[0]))
+						}
+					}
+				}
+			}
+		}
+		a, bt := tables[parts[2]], tables[parts[3]]
+		if len(a) == 0 || len(bt) == 0 {
+			bad = append(bad, "no initialiser entries found")
+		}
+		// optional 5th part: the pairing itself, as a space-separated list `key value key value ...` for table A
+		if len(parts) == 5 {
+			f := strings.Fields(parts[4])
+			want := map[string]string{}
+			for i := 0; i+1 < len(f); i += 2 {
+				want[f[i]] = f[i+1]
+			}
+			if len(want) != len(a) {
+				bad = append(bad, fmt.Sprintf("%s has %d entries, the declared pairing %d", parts[2], len(a), len(want)))
+			}
+			for k, v := range want {
+				if a[k] != v {
+					bad = append(bad, fmt.Sprintf("%s[%q] = %q, declared pairing says %q", parts[2], k, a[k], v))
+				}
+			}
+		}
+		for k, v := range a {
+			if bk, ok := bt[v]; !ok || bk != k {
+				bad = append(bad, fmt.Sprintf("%s[%q] = %q but %s[%q] = %q", parts[2], k, v, parts[3], v, bk))
+			}
+		}
+		for k, v := range bt {
+			if ak, ok := a[v]; !ok || ak != k {
+				bad = append(bad, fmt.Sprintf("%s[%q] = %q but %s[%q] = %q", parts[3], k, v, parts[2], v, ak))
+			}
+		}
+		if len(bad) > 0 {
+			sort.Strings(bad)
+			return false, strings.Join(dedupe(bad), "; ")
+		}
+		return true, fmt.Sprintf("%d entries each, mutually inverse", len(a))
 	case "global-regex":
 		// global-regex|<pkg>|<global>|<pattern>: the global is initialised once, by regexp.MustCompile of exactly this literal
 		if len(parts) < 4 {
